@@ -32,6 +32,12 @@ func init() {
 			"(R11.3) the media type chosen per element is the documented default (script → application/javascript, style → text/css, iframe → text/html, svg → image/svg+xml, math → application/mathml+xml; SVG style → text/css), overridden only by the element's own type attribute. Not covered: re-escaping for the host syntax (byte-level).",
 		Run: runC11,
 	})
+	mutant(&Mutant{Name: "c11-event-handler-minified-undecoded", Property: "C11", File: "html/html.go",
+		Old: "m.MinifyMimetype(jsMimeBytes, attrMinifyBuffer, buffer.NewReader(decodeAttrVal(parse.Copy(val))), inlineParams)", New: "m.MinifyMimetype(jsMimeBytes, attrMinifyBuffer, buffer.NewReader(val), inlineParams)",
+		Rule: "R11.9", Construct: "reads decoded text"})
+	mutant(&Mutant{Name: "c11-style-attribute-ampersands-not-escaped", Property: "C11", File: "html/html.go",
+		Old: "buffer.NewReader(decodeAttrVal(parse.Copy(val))), inlineParams); err == nil {\n\t\t\t\t\t\t\t\tval = escapeAttrAmp(attrMinifyBuffer.Bytes())\n\t\t\t\t\t\t\t} else if err != minify.ErrNotExist {\n\t\t\t\t\t\t\t\treturn minify.UpdateErrorPosition(err, z, attr.Offset)\n\t\t\t\t\t\t\t}\n\t\t\t\t\t\t\tif len(val) == 0 {\n\t\t\t\t\t\t\t\tcontinue\n\t\t\t\t\t\t\t}\n\t\t\t\t\t\t} else if 2 < len(attr.Text)", New: "buffer.NewReader(decodeAttrVal(parse.Copy(val))), inlineParams); err == nil {\n\t\t\t\t\t\t\t\tval = attrMinifyBuffer.Bytes()\n\t\t\t\t\t\t\t} else if err != minify.ErrNotExist {\n\t\t\t\t\t\t\t\treturn minify.UpdateErrorPosition(err, z, attr.Offset)\n\t\t\t\t\t\t\t}\n\t\t\t\t\t\t\tif len(val) == 0 {\n\t\t\t\t\t\t\t\tcontinue\n\t\t\t\t\t\t\t}\n\t\t\t\t\t\t} else if 2 < len(attr.Text)",
+		Rule: "R11.9", Construct: "result has its ampersands escaped"})
 	mutant(&Mutant{Name: "c11-svg-style-type-becomes-document-default", Property: "C11", File: "svg/svg.go",
 		Old: "\t\t\tif tag == Svg && attr == ContentStyleType {\n", New: "\t\t\tif tag == Svg && attr == ContentStyleType || tag == Style && attr == Type {\n",
 		Rule: "R11.3", Construct: "svg"})
@@ -73,8 +79,13 @@ func runC11(c *Ctx) {
 	c.r114()
 	c.r115()
 	c.r118()
+	c.r119()
 	// a data URI rewritten inside url(…) must still be one URL token afterwards: same rule as R09.8
 	c.alsoUnder(map[string]string{"R09.8": "R11.6", "R09.9": "R11.7"}, nil, func() { c.r098() })
+	// the style sheet embedded in an SVG document reaches its minifier as written
+	if pk := c.P.Pkg("svg"); pk != nil {
+		c.r0519(pk, "R11.10")
+	}
 }
 
 // R11.5: the data URI's payload minifier is looked up under the media type as parsed.
@@ -527,6 +538,12 @@ func (c *Ctx) derivesFromAttrVal(pk *packages.Package, e ast.Expr) bool {
 	if _, f := fieldOf(info, e); f != "" {
 		return f == "AttrVal"
 	}
+	// a value passed through functions over byte slices (a copy, a decoder) is still that value
+	if call, isCall := e.(*ast.CallExpr); isCall && len(call.Args) == 1 {
+		if _, isConv := info.Types[call.Fun]; !isConv || !info.Types[call.Fun].IsType() {
+			return c.derivesFromAttrVal(pk, call.Args[0])
+		}
+	}
 	id, ok := e.(*ast.Ident)
 	if !ok {
 		return false
@@ -842,4 +859,100 @@ func (c *Ctx) r118() {
 		c.R.Bad(rule, fmt.Sprintf("parse.DecodeURL/store %s#%d", stmtText(as), n), c.pos(as), "the decoder replaces a literal byte ("+from+") by another one ("+str(as.Rhs[0])+"): in a data URI that byte stands for itself, so the payload the embedded minifier sees — and the one written back — is not the payload of the input")
 	}
 	c.R.Floor(rule, "stores into the decoded slice", n, 1)
+}
+
+// R11.9: code embedded in an attribute is decoded before, and its ampersands escaped after, its minifier.
+func (c *Ctx) r119() {
+	const rule = "R11.9"
+	c.R.Rule(rule, "an attribute value reaches the HTML minifier's embedded calls after parse.ReplaceEntities, which is an escaping normaliser and not a decoder: it deliberately keeps `&amp;` in front of a letter, digit or `#` (and references without a shorter form). Handed to the JS or CSS minifier as it is, `onclick=\"a&amp;&amp;b()\"` is parsed as `a && amp; b()` and comes back as `a&&amp,b()`. In html.(*Minifier).Minify every MinifyMimetype call whose reader is built from the attribute value (`val`) reads from the result of a function of package html that decodes character references (its body calls html.UnescapeString of the standard library), and the value taken over from the output buffer passes a function whose body writes `amp;` (an ampersand in minified code that could start a reference must be escaped again)")
+	pk := c.pkg(rule, "html")
+	if pk == nil {
+		return
+	}
+	info := pk.TypesInfo
+	fd := c.fn(rule, pk, "Minifier.Minify")
+	if fd == nil {
+		return
+	}
+	bodyHas := func(call *ast.CallExpr, pred func(ast.Node) bool) bool {
+		fo, _ := callee(info, call).(*types.Func)
+		if fo == nil || fo.Pkg() != pk.Types {
+			return false
+		}
+		d := load.Func(pk, fo.Name())
+		if d == nil || d.Body == nil {
+			return false
+		}
+		hit := false
+		ast.Inspect(d.Body, func(z ast.Node) bool {
+			if pred(z) {
+				hit = true
+			}
+			return true
+		})
+		return hit
+	}
+	decodes := func(z ast.Node) bool {
+		ce, ok := z.(*ast.CallExpr)
+		return ok && calleeName(info, ce) == "html.UnescapeString"
+	}
+	writesAmp := func(z ast.Node) bool {
+		bl, ok := z.(*ast.BasicLit)
+		return ok && bl.Kind == token.STRING && strings.Contains(bl.Value, "amp;")
+	}
+	n := 0
+	ast.Inspect(fd.Body, func(x ast.Node) bool {
+		ifs, ok := x.(*ast.IfStmt)
+		if !ok || ifs.Init == nil {
+			return true
+		}
+		as, ok := ifs.Init.(*ast.AssignStmt)
+		if !ok || len(as.Rhs) != 1 {
+			return true
+		}
+		call, ok := ast.Unparen(as.Rhs[0]).(*ast.CallExpr)
+		if !ok || !strings.HasSuffix(calleeName(info, call), ".(M).MinifyMimetype") || len(call.Args) < 3 {
+			return true
+		}
+		rd, ok := ast.Unparen(call.Args[2]).(*ast.CallExpr)
+		if !ok || len(rd.Args) != 1 {
+			return true
+		}
+		mentionsVal := false
+		ast.Inspect(rd.Args[0], func(z ast.Node) bool {
+			if id, ok := z.(*ast.Ident); ok && id.Name == "val" {
+				mentionsVal = true
+			}
+			return true
+		})
+		if !mentionsVal {
+			return true
+		}
+		n++
+		// (a) the reader's source is decoded
+		dec := false
+		ast.Inspect(rd.Args[0], func(z ast.Node) bool {
+			if ce, ok := z.(*ast.CallExpr); ok && bodyHas(ce, decodes) {
+				dec = true
+			}
+			return true
+		})
+		c.R.Check(dec, rule, fmt.Sprintf("html.Minifier.Minify/embedded call#%d on an attribute value reads decoded text", n), c.pos(call), "through a function that calls html.UnescapeString", "the attribute value goes to the embedded minifier as parse.ReplaceEntities left it, with `&amp;` still in place in front of letters and digits: `onclick=\"a&amp;&amp;b()\"` is minified as the script `a&&amp;b()` and comes back as `a&&amp,b()`; `x=a&amp;b` is split into two statements")
+		// (b) the result taken from the buffer is escaped
+		esc, took := false, false
+		ast.Inspect(ifs.Body, func(z ast.Node) bool {
+			a2, ok := z.(*ast.AssignStmt)
+			if !ok || len(a2.Lhs) != 1 || len(a2.Rhs) != 1 || str(a2.Lhs[0]) != "val" {
+				return true
+			}
+			took = true
+			if ce, ok := ast.Unparen(a2.Rhs[0]).(*ast.CallExpr); ok && bodyHas(ce, writesAmp) {
+				esc = true
+			}
+			return true
+		})
+		c.R.Check(took && esc, rule, fmt.Sprintf("html.Minifier.Minify/embedded call#%d result has its ampersands escaped", n), c.pos(ifs), "through a function that writes amp;", "the minified code is written into the attribute as it is: an `&` in front of a name (`a&&lt` with a variable lt, `a&copy`) is read back as a character reference by the browser")
+		return true
+	})
+	c.R.Floor(rule, "embedded calls on attribute values", n, 2)
 }
